@@ -123,13 +123,16 @@ func hostileBytes(rng *gen.RNG) []byte {
 
 func hostileSuite(rng *gen.RNG) ref.Suite {
 	pickInt := func() int {
-		switch rng.Intn(5) {
+		switch rng.Intn(6) {
 		case 0:
 			return rng.Intn(13) - 1
 		case 1:
 			return int(int32(rng.U64()))
 		case 2:
 			return gen.Pick(rng, []int{-1 << 63, 1<<63 - 1, -1, 0, 255, 256, 1 << 31})
+		case 3:
+			// values that become small valid-looking numbers when narrowed to 8, 16 or 32 bits
+			return gen.Pick(rng, []int{1 << 8, 1 << 16, 1 << 32, -1 << 8, -1 << 32})*(1+rng.Intn(3)) + rng.Intn(12)
 		default:
 			return rng.Intn(8)
 		}
@@ -207,7 +210,37 @@ func genOCRAArgs(rng *gen.RNG, nstr int) c10Args {
 		a.S = append(a.S, hs(hostileString(rng)))
 	}
 	s := hostileSuite(rng)
-	switch rng.Intn(3) {
+	oneFault := false
+	var base ref.Suite
+	switch rng.Intn(4) {
+	case 3:
+		// one fault: a usable configuration with an input admissible for it, then exactly one numeric field replaced by
+		// a hostile value (incl. values congruent to a valid one modulo 2^8 / 2^16 / 2^32) - everything else about the
+		// call is in order, so whatever sits behind a check that misjudges that one field is reached
+		hb := handBuiltSuites(rng, []string{"r", ""})
+		base = hb[rng.Intn(len(hb))]
+		s = base
+		bad := func(valid int) int {
+			switch rng.Intn(4) {
+			case 0:
+				return valid + gen.Pick(rng, []int{1 << 8, 1 << 16, 1 << 32, -1 << 8, -1 << 16, 2 << 8, 3 << 8})
+			case 1:
+				return gen.Pick(rng, []int{-1, 0, 1, 2, 3, 11, 12, 13, 100, 255, 256})
+			case 2:
+				return int(int32(rng.U64()))
+			default:
+				return gen.Pick(rng, []int{-1 << 63, 1<<63 - 1, 1 << 31, -1 << 31})
+			}
+		}
+		switch rng.Intn(4) {
+		case 0, 1:
+			s.Digits = bad(s.Digits)
+		case 2:
+			s.Challenge = bad(s.Challenge)
+		default:
+			s.TimeStep = bad(s.TimeStep)
+		}
+		oneFault = true
 	case 0:
 		// a usable configuration with hostile inputs reaches the message builder
 		hb := handBuiltSuites(rng, []string{"r"})
@@ -233,7 +266,9 @@ func genOCRAArgs(rng *gen.RNG, nstr int) c10Args {
 	a.Suite = &s
 	a.Via = gen.Pick(rng, []string{viaBare, viaRawValue, viaRaw})
 	in := inputToJ(ref.Input{Counter: hostileBytes(rng), Challenge: hostileBytes(rng), Password: hostileBytes(rng), Session: hostileBytes(rng), Timestamp: hostileBytes(rng)})
-	if rng.Intn(3) == 0 && ref.SuiteUsable(s) {
+	if oneFault {
+		in = inputToJ(admissibleInput(rng, base, rng.Intn(100)))
+	} else if rng.Intn(3) == 0 && ref.SuiteUsable(s) {
 		in = inputToJ(admissibleInput(rng, s, rng.Intn(100)))
 	} else if rng.Intn(2) == 0 && ref.SuiteUsable(s) {
 		// admissible in every field the validators constrain, hostile (any size) where they do not
